@@ -546,7 +546,7 @@ func P_three_requests() {
 	vnd.NoRaces("")
 }
 `)
-	fam.Instances = append(fam.Instances, Instance{Func: "P_shared_rule_set", Stratum: "pool/requests", Desc: "two requests executing one rule with every construct kind", Expect: []string{"executed"}, Nondet: true})
+	fam.Instances = append(fam.Instances, Instance{Func: "P_shared_rule_set", Stratum: "pool/requests", Desc: "two requests executing one rule with every construct kind", Expect: []string{"executed"}, Nondet: true, OneOrd: true})
 	fam.Instances = append(fam.Instances, Instance{Func: "P_two_requests", Stratum: "pool/requests", Desc: "two concurrent pool requests", Expect: []string{"executed"}},
 		Instance{Func: "P_three_requests", Stratum: "pool/requests", Desc: "three pool requests with hand-back", Expect: []string{"executed"}})
 	// a failed request, then two overlapping ones: whatever the failure path did to the pool's
